@@ -44,11 +44,16 @@ Inductive op :=
 | OCSSItems (fs : list cform)                         (* templ.RenderCSSItems *)
 | OElem (fs : list cform) (ss : list script)          (* <div class={ fs... } onclick={ s } ...> as generated *)
 | OOnce (h : N) (body : list op)                      (* @handle.Once() { body }  /  WithComponent(body) *)
-| ONonce (n : bytes).                                 (* templ.WithNonce(ctx, n) somewhere in the rendering context *)
+| ONonce (n : bytes)                                  (* templ.WithNonce(ctx, n) somewhere in the rendering context *)
+| OMiddleware (l : list cssclass).                    (* the request, carrying this rendering context, passes through
+                                                         templ.NewCSSMiddleware(next, l...): a second, stacked middleware, or
+                                                         one below a handler that has already initialised the context and
+                                                         rendered into it *)
 
 (* ---------- the abstract log ---------- *)
 Inductive id := Script (n : bytes) | Class (c : bytes) | Handle (h : N).
-Inductive ev := Def (i : id) | Use (i : id).
+(* Reg i: from here on i is registered with a CSS middleware (its rule is served by that middleware's stylesheet) *)
+Inductive ev := Def (i : id) | Use (i : id) | Reg (i : id).
 
 Definition id_eqb (a b : id) : bool :=
   match a, b with
@@ -60,13 +65,18 @@ Definition id_eqb (a b : id) : bool :=
 Definition mem_id (i : id) (l : list id) : bool := existsb (id_eqb i) l.
 Definition memb (n : bytes) (l : list bytes) : bool := existsb (bytes_eqb n) l.
 
-Definition defs (l : list ev) : list id := flat_map (fun e => match e with Def i => [i] | Use _ => [] end) l.
+Definition defs (l : list ev) : list id := flat_map (fun e => match e with Def i => [i] | _ => [] end) l.
+Definition regs (l : list ev) : list id := flat_map (fun e => match e with Reg i => [i] | _ => [] end) l.
 
 (* each definition at most once *)
 Definition at_most_once (l : list ev) : Prop := NoDup (defs l).
-(* every use is preceded by the definition, or the item was registered before the history began *)
+(* every use is preceded by the definition, or the item was registered before the history began, or it was
+   registered by a middleware the rendering context passed through before the use *)
 Definition before_first_use (registered : id -> Prop) (l : list ev) : Prop :=
-  forall pre i post, l = pre ++ Use i :: post -> registered i \/ In i (defs pre).
+  forall pre i post, l = pre ++ Use i :: post -> registered i \/ In i (defs pre) \/ In i (regs pre).
+(* once an item is registered with a middleware, whatever the context held before, it is not written into the page *)
+Definition never_inlined_once_registered (l : list ev) : Prop :=
+  forall pre i post, l = pre ++ Reg i :: post -> ~ In i (defs post).
 
 (* ---------- which component classes an expression holds, with their switch ---------- *)
 Definition held_class (k : cssclass) (b : bool) : list (cls * bool) :=
@@ -97,6 +107,7 @@ Fixpoint wanted1 (hs : list N) (o : op) : list N * list want :=
   match o with
   | OText t => (hs, [])
   | ONonce _ => (hs, [])
+  | OMiddleware _ => (hs, [])
   | ORender s => (hs, match scall s with [] => [] | _ => [WCallInline s] end)
   | OScriptItems _ => (hs, [])
   | OCSSItems _ => (hs, [])
@@ -148,16 +159,19 @@ Inductive iev :=
 | IDef (i : id)                 (* a function definition inside <script>, a rule inside <style>, a once body's marker *)
 | ICallInline (c : bytes)       (* <script>c</script> holding a call *)
 | ICallAttr (c : bytes)         (* on*="c" *)
-| INames (ns : list bytes).     (* class="n1 n2 ..." *)
+| INames (ns : list bytes)      (* class="n1 n2 ..." *)
+| IReg (i : id).                (* no bytes: at this point of the document the rendering context passed through a CSS
+                                   middleware that registers i *)
 
-(* check_log d w l: no definition repeats or repeats something in d (registered up front or defined
-   earlier); every use in l is the next wanted one, carries its call / the names of the component
+(* check_log d w l: no definition repeats or repeats something in d (registered up front, registered by a
+   middleware passed since, or defined earlier); every use in l is the next wanted one, carries its call / the names of the component
    classes it holds enabled (unless the expression switches that name off), and what it uses has been
    defined; nothing wanted is left over. *)
 Fixpoint check_log (d : list id) (w : list want) (l : list iev) : bool :=
   match l with
   | [] => match w with [] => true | _ => false end
   | IDef i :: t => negb (mem_id i d) && check_log (i :: d) w t
+  | IReg i :: t => check_log (i :: d) w t
   | ICallInline c :: t =>
       match w with
       | WCallInline s :: w' => bytes_eqb c (sinline s) && mem_id (Script (sname s)) d && check_log d w' t
